@@ -354,7 +354,7 @@ class C19(Check):
                                     key="C19/success-but-missing/info")
                     else:
                         n_scales = len(info["scales"])
-                elif name.startswith("convert") and name != "convert_chunks":
+                elif name in ("convert", "convert_again", "convert_third"):
                     info, data = dataset(S)
                     first = info["scales"][0]["key"]
                     if not complete(S, info, data, {first},
